@@ -5,7 +5,7 @@ VERIF = os.path.dirname(os.path.dirname(os.path.abspath(__file__)))
 sys.path.insert(0, os.path.join(VERIF, 'tools'))
 REPO = os.environ.get('VF_REPO', '/repo')
 import z3
-import irsym, mm
+import irsym, irdag, mm
 
 CLANG = 'clang++-14'
 CLANG_FLAGS = ['-std=c++20', '-O1', '-fno-vectorize', '-fno-slp-vectorize', '-fno-unroll-loops', '-fno-exceptions' if False else '-fexceptions',
@@ -31,7 +31,8 @@ def has_check_reach(items):
 def analyse(ll, nthreads, opts=None, log=None, mode='sc'):
     """returns dict with verdicts"""
     t0 = time.time()
-    sc, threads, has_check = irsym.build_scenario(ll, nthreads, opts, log)
+    eng = irsym if (opts or {}).get('engine') == 'tree' else irdag
+    sc, threads, has_check = eng.build_scenario(ll, nthreads, opts, log)
     t_sym = time.time() - t0
     M = mm.Model(sc, threads, has_check, timeout_ms=(opts or {}).get('timeout_ms', 600000))
     res = {'events': M.stats['events'], 'paths': [len(t[1]) for t in threads], 'passes': sc.passes, 'symex_s': round(t_sym, 2),
